@@ -170,6 +170,7 @@ impl RenameFlags {
 pub struct ResolverFlags { pub bits: u64 }
 impl ResolverFlags {
     pub const NO_SYMLINKS: ResolverFlags = ResolverFlags { bits: libc::RESOLVE_NO_SYMLINKS };
-    pub fn contains(&self, o: ResolverFlags) -> (r: bool) ensures r == (self.bits & o.bits == o.bits) { self.bits & o.bits == o.bits }
+    pub open spec fn contains_spec(&self, o: ResolverFlags) -> bool { self.bits & o.bits == o.bits }
+    pub fn contains(&self, o: ResolverFlags) -> (r: bool) ensures r == self.contains_spec(o) { self.bits & o.bits == o.bits }
     pub fn bits(&self) -> (r: u64) ensures r == self.bits { self.bits }
 }
